@@ -406,6 +406,8 @@ def add_kerning(model, rng, pairs=20, groups=True, divergent=0.0, partial=0.0, z
         if mi and divergent and rng.random() < divergent and gr:
             # move / drop / add members in this master only
             for _ in range(rng.randint(1, 3)):
+                if not gr:
+                    break
                 k = rng.choice(list(gr))
                 side = k[:13]
                 op = rng.random()
